@@ -61,7 +61,7 @@ def gen_history(rng, n_steps: int, allow: set):
     weights = {
         "edit_body": 10, "edit_body_middle": 4, "edit_bullet": 6, "change_kind": 5, "change_priority": 5, "add_note": 6, "add_note_zid": 3,
         "delete_note": 4, "retitle_section": 3, "edit_header": 3, "move_note": 4, "add_page": 3, "delete_page": 3, "rename_page": 2,
-        "advance_day": 6, "reindex": 12, "reindex_paths": 4, "break_page": 3, "repair_page": 4,
+        "advance_day": 6, "reindex": 12, "reindex_paths": 4, "break_page": 3, "repair_page": 4, "restore_page": 3,
     }
     ks = [k for k in weights if k in allow]
     ws = [weights[k] for k in ks]
@@ -70,7 +70,7 @@ def gen_history(rng, n_steps: int, allow: set):
     return kinds
 
 
-ALL_STEPS = {"break_page", "repair_page", "edit_body", "edit_body_middle", "edit_bullet", "change_kind", "change_priority", "add_note", "add_note_zid", "delete_note", "retitle_section", "edit_header", "move_note", "add_page", "delete_page", "rename_page", "advance_day", "reindex", "reindex_paths"}
+ALL_STEPS = {"restore_page", "break_page", "repair_page", "edit_body", "edit_body_middle", "edit_bullet", "change_kind", "change_priority", "add_note", "add_note_zid", "delete_note", "retitle_section", "edit_header", "move_note", "add_page", "delete_page", "rename_page", "advance_day", "reindex", "reindex_paths"}
 
 
 class Runner:
@@ -86,6 +86,7 @@ class Runner:
         self.failed = None
         self.n_pages = n_pages
         self.page_counter = 0
+        self.vanished: list = []  # (rel, text) of pages deleted / renamed away: may come back unchanged
         self.broken: dict = {}  # rel -> last good text (page currently has a syntax error)
         self.refusals = 0
 
@@ -134,6 +135,20 @@ class Runner:
             else:
                 p.write_text(text)
             return
+        if kind == "restore_page":
+            # a page that was deleted / renamed away comes back under its old name with the very same bytes
+            cands = [(r, t) for r, t in self.vanished if not (self.root / r).exists()]
+            if not cands:
+                return
+            r, t = rng.choice(cands)
+            zs = {hg.first_line_parts(l)[2] for l in t.split("\n") if hg.ITEM_START.match(l)}
+            live = {hg.first_line_parts(l)[2] for p_ in self.pages() for l in p_.read_text().split("\n") if hg.ITEM_START.match(l)}
+            if (zs - {None}) & (live - {None}):
+                return  # (a renamed page still carries these notes: restoring the old file would duplicate ZIDs)
+            (self.root / r).parent.mkdir(parents=True, exist_ok=True)
+            (self.root / r).write_text(t)
+            self.log.append(Step(kind, page=r).to_json())
+            return
         if kind == "repair_page":
             if not self.broken:
                 return
@@ -181,6 +196,7 @@ class Runner:
             if len(pages) < 2:
                 return
             p = rng.choice(pages)
+            self.vanished.append((rel(self.root, p), p.read_text()))
             p.unlink()
             self.log.append(Step(kind, page=rel(self.root, p)).to_json())
         elif kind == "rename_page":
@@ -189,6 +205,7 @@ class Runner:
             p = rng.choice(pages)
             self.page_counter += 1
             q = p.with_name(f"renamed{self.page_counter}.zo")
+            self.vanished.append((rel(self.root, p), p.read_text()))
             p.rename(q)
             self.log.append(Step(kind, src=rel(self.root, p), dst=rel(self.root, q)).to_json())
         elif kind == "advance_day":
